@@ -1,0 +1,9 @@
+//go:build verif
+
+package lexer
+
+// VerifAdvanceDFA exposes the scanner's transition function to the verification hook.
+func VerifAdvanceDFA(state int, r rune) int { return advanceDFA(state, r) }
+
+// VerifBufferSize exposes the size of one half of the input buffer.
+const VerifBufferSize = bufferSize
